@@ -203,9 +203,10 @@ def run(tier, seed, replay):
 def linked_binaries(out, tooldir, env, tier):
     """main.go's buildVersion (ldflags -X main.version=...) through real binaries."""
     pairs = [("v1.2.3", "1.2.3", 0), ("v1.2.3", "1.3.0", 1), ("1.2.3", "1.2.0", 0), ("v0.4.1", "0.4.9", 0),
-             ("v0.4.1", "0.5.0", 1), ("dev-main", "9.9.9", 0), ("vv1.2.3", "9.9.9", 0), ("v2.0.0", "1.0.0", 1)]
+             ("v0.4.1", "0.5.0", 1), ("dev-main", "9.9.9", 0), ("vv1.2.3", "9.9.9", 0), ("v2.0.0", "1.0.0", 1),
+             ("v1.2.3+build.7", "1.3.0", 1), ("v1.2.3+build.7", "1.2.9", 0), ("v1.2.3-rc.1+b.5", "2.0.0", 1), ("v0.4.1+dirty", "0.5.0", 1), ("1.2.3+build.7", "1.3.0", 1), ("v1.2.3-rc.1", "1.3.0", 1)]
     if tier == "quick":
-        pairs = [pairs[i] for i in (0, 1, 4, 5, 6)]      # one of each class: v-prefixed accept / reject, major 0 reject, non-semver build, vv-prefixed
+        pairs = [pairs[i] for i in (0, 1, 4, 5, 6, 8, 9, 11)]      # one of each class: v-prefixed accept / reject, major 0 reject, non-semver build, vv-prefixed
     n = 0
     tmp = tempfile.mkdtemp(prefix="gvc18_", dir="/dev/shm")
     try:
